@@ -22,7 +22,7 @@ from ..rat import ppb
 from .. import tlc
 from ..ms import Sink, relerr
 
-VARIANTS = [(b, s) for b in ("1", "2", "auto") for s in ("synchronous", "threads")]
+VARIANTS = [(b, s) for b in ("1", "2", "4", "auto") for s in ("synchronous", "threads")]
 
 
 def build_scenario(s):
@@ -53,7 +53,8 @@ def build_scenario(s):
            "two": [abtem.AnnularDetector(inner=10, outer=60), abtem.PixelatedDetector(max_angle=None)]}[s["detector"]]
     scan = {"none": None, "custom": abtem.CustomScan(np.array([[1.0, 1.5], [2.5, 0.5], [0.2, 3.3]])),
             "line": abtem.LineScan(start=(0.5, 0.5), end=(3.0, 2.0), gpts=4, endpoint=False),
-            "grid": abtem.GridScan(start=(0, 0), end=(2.0, 3.0), gpts=(2, 3))}[s["scan"]]
+            "grid": abtem.GridScan(start=(0, 0), end=(2.0, 3.0), gpts=(2, 3)),
+            "grid_uneven": abtem.GridScan(start=(0.3, 0.1), end=(2.7, 3.6), gpts=(3, 5))}[s["scan"]]
 
     def run(lazy, max_batch):
         with warnings.catch_warnings():
@@ -172,8 +173,8 @@ def run(ctx: Ctx):
     quick = ctx.tier == "quick"
     ctx.rule = ("scenarios = builder x potential kind (atoms, frozen phonons with/without mean, atoms ensemble, crystal potential, built "
                 "array) x exit planes (none, int, tuple) x detector set (waves, annular, flexible annular, segmented, pixelated, two "
-                "detectors) x scan (none, custom, line, grid) x CTF application, pruned by Pipeline!Valid, enumerated by TLC; each run "
-                "eagerly and lazily for max_batch {1, 2, auto} x scheduler {synchronous, threads}; non-trivial = every scenario")
+                "detectors) x scan (none, custom, line, 2x3 grid, 3x5 grid) x CTF application, pruned by Pipeline!Valid, enumerated by TLC; each run "
+                "eagerly and lazily for max_batch {1, 2, 4, auto} x scheduler {synchronous, threads}; non-trivial = every scenario")
     ctx.design_check("PipelineModel", "PipelineSched.cfg", label="schedule confluence (4 blocks, 3 workers)")
     r = ctx.design_check("PipelineModel", "PipelineScn.cfg", label="scenario enumeration", workers=1)
     self_test(ctx)
@@ -183,7 +184,14 @@ def run(ctx: Ctx):
     cases.sort(key=lambda c: json.dumps(c, sort_keys=True))
     rng.shuffle(cases)
     if quick:
-        cases = cases[:45]
+        # one scenario of every (builder, scan, potential) stratum at every seed, then the seeded remainder
+        seen, first, rest = set(), [], []
+        for c in cases:
+            k = (c["builder"], c["scan"], c["potential"])
+            (rest if k in seen else first).append(c)
+            seen.add(k)
+        cases = first + rest[:8]
+        ctx.notes["strata"] = len(seen)
     else:
         ctx.exhaustive = True
     evs = []
